@@ -26,7 +26,8 @@ def describe(tier):
                  b['layouts'], '; %d nodes in the compact layout, one rotation' % b['big'] if b['big'] else ''),
         nontrivial='the position lies strictly inside at least one rule or declaration.',
         bounds=b,
-        assumptions=['balanced_inward on node boundaries and declarations not terminated by `;` are left unspecified (C16 covers totality)'],
+        assumptions=['the checked calls at every fourth position are preceded by %d calls on incomplete / ill-formed text (unclosed and stray parentheses, '
+                     'unterminated string and comment): history must not matter' % len(POISON), 'balanced_inward on node boundaries and declarations not terminated by `;` are left unspecified (C16 covers totality)'],
         explanation='Every (stylesheet, position) is given to the real matcher and compared with the generator ground truth.',
     )
 
@@ -59,9 +60,26 @@ def mtuple(m):
     return (m.type, m.start, m.end, m.body_start, m.body_end)
 
 
+# calls on incomplete or ill-formed text made before every checked call: nothing of them may survive into the next call
+# (an unclosed parenthesis, a stray closing one, a scan that stops early inside parentheses)
+POISON = [('.hero {\n    width: calc(100% - ', 31), ('a { color: 0, 0, 0, .5); }\n', 6),
+          ('a { b: url(data:image/png;base64,AAAA); c: d }', 20), ('a { b: "x', 8), ('a { /* x', 7)]
+
+
+def poison():
+    for text, p in POISON:
+        for f in (CM.match, CM.balanced_outward, CM.balanced_inward):
+            try:
+                f(text, p)
+            except Exception:
+                pass
+
+
 def check_pos(text, nodes, p):
     bad = []
     enc = D.enclosing(nodes, p)
+    if p % 4 == 0:
+        poison()
     try:
         m = CM.match(text, p)
     except Exception as e:
